@@ -234,3 +234,362 @@ func (r *Run) PureShapes(fnNames []string, why string) {
 		r.pass("K4-pure-shape", name, "branch conditions and result forms", fmt.Sprintf("%d forms", len(w)), why, file, line)
 	}
 }
+
+//go:embed tables/success_returns.json
+var successReturnsJSON []byte
+
+// successForms: every result form fn can return without failing.
+func (r *Run) successForms(fn *ssa.Function) []string {
+	fi := r.P.Info(fn)
+	set := map[string]bool{}
+	for _, e := range r.P.Effects(fn) {
+		if e.Kind != "return" {
+			continue
+		}
+		b := e.Instr.Block()
+		if fi.failExit[b] {
+			continue
+		}
+		set[e.Canon] = true
+	}
+	var out []string
+	for s := range set {
+		out = append(out, s)
+	}
+	sort.Strings(out)
+	return out
+}
+
+// SuccessReturnTable: a function of the selected files has no way to succeed that it did not have
+// on the reviewed tree — no new fast path, early `return nil`, shortcut on a cached value, or
+// success under a new condition. (Ways to succeed that disappeared are not reported here: more
+// rejection is the business of the other rules.)
+func (r *Run) SuccessReturnTable(keep func(tableRow) bool, why string) int {
+	var rows []tableRow
+	if err := json.Unmarshal(successReturnsJSON, &rows); err != nil {
+		panic("bad embedded table: " + err.Error())
+	}
+	want := map[string]map[string]bool{}
+	order := []string{}
+	for _, row := range rows {
+		if !keep(row) {
+			continue
+		}
+		if want[row.F] == nil {
+			want[row.F] = map[string]bool{}
+			order = append(order, row.F)
+		}
+		want[row.F][row.C] = true
+	}
+	n := 0
+	for _, name := range order {
+		fn := r.P.Fn(name)
+		if fn == nil || fn.Blocks == nil {
+			continue // a function that no longer exists has no way to succeed
+		}
+		n++
+		file, line := r.P.FnPos(fn)
+		var extra []string
+		for _, s := range r.successForms(fn) {
+			if !want[name][s] && !r.sameSuccessModuloTail(fn, s, want[name]) {
+				extra = append(extra, s)
+			}
+		}
+		if len(extra) > 0 {
+			r.viol("K2-new-success-path", name, "ways to succeed", fmt.Sprintf("%s can now succeed in a way it could not on the reviewed tree: %s", name, strings.Join(extra, " ; ")), why, file, line)
+			continue
+		}
+		r.pass("K2-new-success-path", name, "ways to succeed", fmt.Sprintf("%d frozen forms", len(want[name])), why, file, line)
+	}
+	if n == 0 {
+		r.viol("vacuous-rule", "", "success-return table", "no table row selected", why, "", 0)
+	}
+	return n
+}
+
+func filePrefix(prefixes ...string) func(tableRow) bool {
+	return func(t tableRow) bool {
+		for _, p := range prefixes {
+			if strings.HasPrefix(t.File, p) {
+				return true
+			}
+		}
+		return false
+	}
+}
+
+// successScope: the files whose functions carry each property (anchors and the layers below them).
+var successScope = map[string][]string{
+	"C01": {"vm/", "verifier/", "chain/"},
+	"C02": {"vm/", "verifier/", "chain/", "common/db/", "consensus/", "protocol/chain_bridge.go"},
+	"C03": {"vm/vm.go", "vm/supervisor.go", "vm/plasma.go", "vm/vm_context/", "verifier/", "chain/"},
+	"C04": {"vm/vm.go", "vm/supervisor.go", "vm/vm_context/", "verifier/", "chain/"},
+	"C05": {"verifier/", "consensus/", "pillar/", "chain/momentum/"},
+	"C06": {"chain/", "common/db/", "consensus/"},
+	"C07": {"common/db/"},
+	"C08": {"common/db/"},
+	"C09": {"vm/", "pillar/"},
+	"C10": {"vm/embedded/", "vm/vm.go", "vm/supervisor.go"},
+	"C11": {"vm/embedded/implementation/", "vm/constants/", "consensus/"},
+	"C12": {"vm/vm.go", "vm/plasma.go", "vm/supervisor.go", "pow/", "verifier/", "vm/constants/"},
+	"C13": {"vm/vm.go", "vm/supervisor.go", "verifier/", "chain/nom/", "vm/abi/"},
+	"C14": {"chain/"},
+	"C15": {"protocol/", "p2p/"},
+	"C16": {"protocol/", "chain/momentum_pool.go"},
+	"C17": {"vm/embedded/", "chain/momentum/", "common/types/"},
+	"C18": {"rpc/"},
+	"C19": {"wallet/"},
+	"C20": {"chain/genesis/", "chain/chain.go", "chain/momentum/"},
+}
+
+func runWithCommon(def *propDef, r *Run) {
+	def.Run(r)
+	if sc := successScope[def.ID]; len(sc) > 0 {
+		r.SuccessReturnTable(filePrefix(sc...), "a function hands out, on success, only the result forms it handed out on the reviewed tree: a new one (a memoised value, the configured instead of the stored record, a shortcut result) is a new accepting path")
+		r.MustPassGuardTable(filePrefix(sc...), "the rules of this property pin what the accepting paths check; a new accepting path (fast path, early success) that gets around a guard bypasses them")
+		r.MustPassEffectTable(filePrefix(sc...), "and what they do: a new accepting path that skips a state change (record saved, balance moved, marker set, cache purged, nested verification) leaves the ledger half-updated")
+	}
+}
+
+//go:embed tables/mustpass_guards.json
+var mustPassGuardsJSON []byte
+
+// mustPassGuards: the rejecting guards of fn that every non-failing exit passes (their accepting
+// edge is on every path from the entry to every success return, within the guard's context).
+func (r *Run) mustPassGuards(fn *ssa.Function) []string {
+	fi := r.P.Info(fn)
+	set := map[string]bool{}
+	for _, g := range fi.guards {
+		if g.Reject == "" {
+			continue
+		}
+		all := true
+		for b := range fi.okBlock {
+			if !g.DominatesInContext(b) {
+				all = false
+				break
+			}
+		}
+		if all && len(fi.okBlock) > 0 {
+			set[g.Full()] = true
+		}
+	}
+	var out []string
+	for s := range set {
+		out = append(out, s)
+	}
+	sort.Strings(out)
+	return out
+}
+
+// MustPassGuardTable: a rejecting guard that stood on every accepting path of its function on the
+// reviewed tree still stands on every accepting path: no new early success, fast path or reordered
+// return gets around it. (A guard that is no longer present under the same normal form is the
+// business of the guard rules, not of this one.)
+func (r *Run) MustPassGuardTable(keep func(tableRow) bool, why string) int {
+	var rows []tableRow
+	if err := json.Unmarshal(mustPassGuardsJSON, &rows); err != nil {
+		panic("bad embedded table: " + err.Error())
+	}
+	n, absent := 0, 0
+	for _, row := range rows {
+		if !keep(row) {
+			continue
+		}
+		fn := r.P.Fn(row.F)
+		if fn == nil || fn.Blocks == nil {
+			continue
+		}
+		fi := r.P.Info(fn)
+		var g0 *Guard
+		for _, g := range fi.guards {
+			if g.Reject != "" && g.Full() == row.C {
+				g0 = g
+			}
+		}
+		if g0 == nil {
+			absent++
+			continue
+		}
+		n++
+		bad := false
+		for b := range fi.okBlock {
+			if !g0.DominatesInContext(b) {
+				f2, l2 := r.P.Pos(lastInstr(b).Pos())
+				r.viol("K2-guard-bypassed", row.F, "reject-if "+row.C+" on every accepting path", fmt.Sprintf("%s can now return successfully at %s:%d without passing the guard `reject-if %s` (%s:%d), which every accepting path passed on the reviewed tree", row.F, f2, l2, row.C, g0.File, g0.Line), why, f2, l2)
+				bad = true
+				break
+			}
+		}
+		if !bad {
+			r.pass("K2-guard-bypassed", row.F, "reject-if "+row.C+" on every accepting path", "", why, g0.File, g0.Line)
+		}
+	}
+	if n == 0 {
+		r.viol("vacuous-rule", "", "must-pass guard table", "no table row matched", why, "", 0)
+	}
+	if absent > 0 {
+		r.Notes = append(r.Notes, fmt.Sprintf("must-pass guard table: %d frozen guard(s) are no longer present under the same normal form (left to the guard rules)", absent))
+	}
+	return n
+}
+
+func splitTop(s string) []string {
+	var parts []string
+	depth, last := 0, 0
+	for j, ch := range s {
+		switch ch {
+		case '(', '[':
+			depth++
+		case ')', ']':
+			depth--
+		case ',':
+			if depth == 0 {
+				parts = append(parts, strings.TrimSpace(s[last:j]))
+				last = j + 1
+			}
+		}
+	}
+	return append(parts, strings.TrimSpace(s[last:]))
+}
+
+// sameSuccessModuloTail: `return …, f()` and `if err := f(); err != nil { return …, err }; return …, nil`
+// are the same accepting path. A new form is accepted when it differs from a frozen one only in
+// spelling the error result as the still-unchecked call (frozen: nil), or as nil after that call was
+// checked (frozen: the call).
+func (r *Run) sameSuccessModuloTail(fn *ssa.Function, form string, frozen map[string]bool) bool {
+	ei := errResultIndex(fn.Signature)
+	if ei < 0 || !strings.HasPrefix(form, "return ") {
+		return false
+	}
+	comps := splitTop(strings.TrimPrefix(form, "return "))
+	if ei >= len(comps) {
+		return false
+	}
+	join := func(c []string) string { return "return " + strings.Join(c, ", ") }
+	if comps[ei] != "nil" {
+		c2 := append([]string(nil), comps...)
+		c2[ei] = "nil"
+		return frozen[join(c2)]
+	}
+	fi := r.P.Info(fn)
+	for f := range frozen {
+		fc := splitTop(strings.TrimPrefix(f, "return "))
+		if len(fc) != len(comps) || fc[ei] == "nil" {
+			continue
+		}
+		same := true
+		for i := range fc {
+			if i != ei && fc[i] != comps[i] {
+				same = false
+			}
+		}
+		if !same {
+			continue
+		}
+		for _, g := range fi.guards {
+			if g.Reject == "" || g.RejCond.Op != "ne" || g.RejCond.R == nil {
+				continue
+			}
+			l, rr := g.RejCond.L.String(), g.RejCond.R.String()
+			if (l == "nil" && rr == fc[ei]) || (rr == "nil" && l == fc[ei]) {
+				return true
+			}
+		}
+	}
+	return false
+}
+
+//go:embed tables/mustpass_effects.json
+var mustPassEffectsJSON []byte
+
+// mustPassEffects: state-changing effects (recordEffect: stores into records and blocks, Save/Delete,
+// balance moves, big.Int mutation) and calls to module functions that every non-failing exit of fn
+// passes (the effect's block dominates every success return).
+func (r *Run) mustPassEffects(fn *ssa.Function) map[string]*Effect {
+	fi := r.P.Info(fn)
+	out := map[string]*Effect{}
+	if len(fi.okBlock) == 0 {
+		return out
+	}
+	for _, e := range r.P.Effects(fn) {
+		if e.Kind == "return" {
+			continue
+		}
+		if !(recordEffect(e) || (e.Kind == "call" && r.P.Fn(e.Callee) != nil) || (e.Kind == "call" && strings.HasPrefix(e.Callee, "iface:") && !strings.Contains(e.Callee, "Logger"))) {
+			continue
+		}
+		if strings.HasPrefix(e.Canon, "defer ") {
+			continue
+		}
+		all := true
+		for b := range fi.okBlock {
+			if !e.Instr.Block().Dominates(b) {
+				all = false
+				break
+			}
+		}
+		if all {
+			out[e.Canon] = e
+		}
+	}
+	return out
+}
+
+// MustPassEffectTable: an effect that every accepting path of its function performed on the reviewed
+// tree is still performed on every accepting path (if the function still has it at all): no new
+// early success skips a Save, a balance move, a marker, a purge or a nested check.
+func (r *Run) MustPassEffectTable(keep func(tableRow) bool, why string) int {
+	var rows []tableRow
+	if err := json.Unmarshal(mustPassEffectsJSON, &rows); err != nil {
+		panic("bad embedded table: " + err.Error())
+	}
+	n, absent := 0, 0
+	cache := map[string]map[string]*Effect{}
+	all := map[string]map[string]bool{}
+	for _, row := range rows {
+		if !keep(row) {
+			continue
+		}
+		fn := r.P.Fn(row.F)
+		if fn == nil || fn.Blocks == nil {
+			continue
+		}
+		if cache[row.F] == nil {
+			cache[row.F] = r.mustPassEffects(fn)
+			all[row.F] = map[string]bool{}
+			for _, e := range r.P.Effects(fn) {
+				all[row.F][e.Canon] = true
+			}
+		}
+		if !all[row.F][row.C] {
+			absent++
+			continue
+		}
+		n++
+		if e := cache[row.F][row.C]; e != nil {
+			r.pass("K2-effect-bypassed", row.F, row.C+" on every accepting path", "", why, e.File, e.Line)
+			continue
+		}
+		file, line := r.P.FnPos(fn)
+		fi := r.P.Info(fn)
+		for _, e := range r.P.Effects(fn) {
+			if e.Canon != row.C {
+				continue
+			}
+			for b := range fi.okBlock {
+				if !e.Instr.Block().Dominates(b) {
+					file, line = r.P.Pos(lastInstr(b).Pos())
+				}
+			}
+		}
+		r.viol("K2-effect-bypassed", row.F, row.C+" on every accepting path", fmt.Sprintf("%s can now return successfully (%s:%d) without performing `%s`, which every accepting path performed on the reviewed tree", row.F, file, line, row.C), why, file, line)
+	}
+	if n == 0 {
+		r.viol("vacuous-rule", "", "must-pass effect table", "no table row matched", why, "", 0)
+	}
+	if absent > 0 {
+		r.Notes = append(r.Notes, fmt.Sprintf("must-pass effect table: %d frozen effect(s) are no longer present under the same normal form (left to the effect rules)", absent))
+	}
+	return n
+}
